@@ -208,3 +208,52 @@ RULES.append(lazy("C03", "r6_loop_wiring", "every requested output is known to t
 RULES.append(lazy("C02", "r6_worker_deferral", "a task sequence whose inputs have all arrived is run (else its outputs never exist and the run never returns)"))
 RULES.append(lazy("C07", "r3_r5_recv_loop", "an unacknowledged transfer / fetch payload is re-sent after its grace period (else the dependent task or the requested output waits for ever)"))
 RULES.append(lazy("C10", "r10_resolve_callable", "entrypoint tasks and custom serde functions are found by their dotted names"))
+RULES.append(lazy("C03", "r8_initial_state_owned", "a run must not consume the caller's Preschedule: a second run of the same job with the same Preschedule delivers nothing if the first one emptied its consumer sets"))
+
+
+def r10_serde_dispatch(ctx):
+    """C01.R10: a registered custom encoder is applied to values of exactly the registered type.  The encoder pair is user code written
+    for that type; applied to a value of another type — a subclass included — it may drop what the subclass adds, and the value the
+    caller or a downstream task receives differs from the sequential one.  Everything else goes through the general-purpose pickler."""
+    repo = ctx.repo
+    fi = repo.func("cascade.executor.serde.ser_output")
+    ctx.analysed(fi.qual)
+    # a (base, subclass) pair of repository classes stands for the user's classes
+    pair = None
+    for q in sorted(repo.classes):
+        ci = repo.classes[q]
+        mro = repo.class_mro(q)
+        if len(mro) > 1 and mro[1] in repo.classes and not repo.is_enum(mro[1]) and not ci.outer and len(repo.class_mro(mro[1])) == 1:
+            pair = (mro[1], q)
+            break
+    if pair is None:
+        ctx.undecided("C01.R10", loc(fi), "no class pair available to stand for a registered type and its subclass")
+        return
+    from ..terms import ClassRef, ModelFn
+    base, sub = pair
+    other = next(q for q in sorted(repo.classes) if q not in repo.class_mro(sub) and base not in repo.class_mro(q))
+    n = 0
+    for label, vcls, want_custom in (("the registered type itself", base, True), ("a subclass of the registered type", sub, False), ("an unrelated type", other, False)):
+        v = Obj(vcls, {}, name="VALUE")
+        ser = ModelFn("user_ser", lambda run, a, k, nn, f: App("user_ser", a, uid=None))
+        env = {"cascade.executor.serde.SerdeRegistry.serde": {ClassRef(base): (ser, "user.des")}}
+        ps = Interp(repo).explore(fi, env=env, args={"v": v, "annotation": "Any"})
+        ctx.evals(len(ps))
+        for p in ps:
+            n += 1
+            rv = p.exit[1] if p.exit[0] == "return" else None
+            custom = isinstance(rv, tuple) and len(rv) == 2 and rv[1] == "user.des"
+            pickled = isinstance(rv, tuple) and len(rv) == 2 and rv[1] == "cloudpickle.loads" and isinstance(rv[0], App) and "dumps" in rv[0].fname and rv[0].args and getattr(rv[0].args[0], "name", None) == "VALUE"
+            if want_custom and not custom:
+                ctx.violation("C01.R10", fi.qual, loc(fi), "registered type uses its encoder", f"value of {label}: ser_output gives {vkey(rv)[:120]}; expected the registered pair")
+            elif not want_custom and not pickled:
+                ctx.violation("C01.R10", fi.qual, loc(fi), "custom encoder only for the registered type",
+                              f"encoder registered for {base.rsplit('.', 1)[-1]}, value of {label} ({vcls.rsplit('.', 1)[-1]}): ser_output gives {vkey(rv)[:140]}; expected the "
+                              f"general-purpose pickler — an encoder written for another type need not preserve this value (a subclass's extra state is lost and "
+                              f"the downstream task computes on different data)")
+            else:
+                ctx.ok("C01.R10", loc(fi), f"ser_output | value of {label}")
+    ctx.floor("C01.R10.cases", n, 3)
+
+
+RULES.append(r10_serde_dispatch)
